@@ -11,8 +11,8 @@ Rec == TLog[k]
 Same(obs, exp) == obs.den = exp[2] /\ obs.num = exp[1] /\ obs.close
 \* verdict-bearing (C06): maskings are carried by every operation, aggregates of the result see observed entries only
 WeightsKept == /\ Rec.outcome = outcome
-               /\ outcome = "ok" => (Rec.weights = expw /\ Rec.wcount = Cardinality(Observed) * (IF kind = "matrix" THEN 2 ELSE 1) /\ Rec.wsum_own_ok /\ Rec.operands_untouched)
+               /\ outcome = "ok" => (Rec.weights = expw /\ Rec.wcount = Cardinality(Observed) * (IF kind \in {"matrix", "wt_none_matrix"} THEN 2 ELSE 1) /\ Rec.wsum_own_ok /\ Rec.operands_untouched)
 \* conformance note (arithmetic, not a missing-data matter): values at observed entries
-ValuesRight == outcome = "ok" => ((\A i \in Observed : Same(Rec.values[i], expv[i])) /\ (kind # "matrix" => Same(Rec.wsum, WSumExp)))
+ValuesRight == outcome = "ok" => ((\A i \in Observed : Same(Rec.values[i], expv[i])) /\ (kind \notin {"matrix", "wt_none_matrix"} => Same(Rec.wsum, WSumExp)))
 Covered == IOEnv.EXPECT_COUNT = "0" \/ Cardinality({TLog[i].key : i \in 1..Len(TLog)}) = atoi(IOEnv.EXPECT_COUNT)
 =============================================================================
